@@ -57,6 +57,19 @@ def exit_rule(ctx, facts):
         return 0
     loop = loops[0]
     n = 0
+    # the loop over the elements of the sequence ends only when the sequence does: a `break` / `return` there drops the elements
+    # that follow, whatever the reason (one element may be abandoned with `continue` on a legitimate condition only)
+    from ..rulelib import for_loops
+    for f in for_loops(fn):
+        if t.contains(f["body"], loop):
+            for (kind, node) in loop_exits(fn, f["loop"]):
+                if kind == "iterator-exhausted" or (node.get("target") is not None and node["target"] != f["loop"]["id"]):
+                    continue
+                if kind in ("break", "return", "try"):
+                    n += 1
+                    ctx.violation("EXIT", fid, "%s out of the loop over the sequence" % kind, hirq.loc(node),
+                                  "`%s` leaves the loop over the elements of the sequence (taken when %s): the elements that follow are never raced, "
+                                  "the result is silently the signature of a prefix" % (kind, nf.all_conditions(t, node, stop=f["loop"])[:1]))
     # the race value: the argument offered to update_with_maxtracker
     offers = [c for c in self_method_calls(fn, "min_store", ["update_with_maxtracker"])]
     xs = {nf.nf(c["args"][1], True) for c in offers}
